@@ -117,14 +117,20 @@ def apply(seq, op):
     elif name == "copy":
         return ("REPLACE", seq.copy())
     elif name == "getters":
-        res = [_summary(seq.get_message_pairings()), _summary(seq.get_interleaved_message_pairings()),
-               _summary(seq.get_message_times_of_type([MT.TIME_SIGNATURE, MT.KEY_SIGNATURE])), seq.is_empty(),
-               seq.is_channel_consistent(), len(seq.to_midi_track().messages), seq.get_sequence_duration_relation(),
-               _summary(seq.split([a["n"] + 1, 7])), seq.equals(seq), seq == seq]
-        if seq.abs._messages:
-            res.append(seq.get_sequence_duration())
-            if seq.is_channel_consistent():
-                res.append(seq.get_sequence_channel())
+        calls = [lambda: seq.get_message_pairings(), lambda: seq.get_interleaved_message_pairings(),
+                 lambda: seq.get_message_times_of_type([MT.TIME_SIGNATURE, MT.KEY_SIGNATURE]), lambda: seq.is_empty(),
+                 lambda: seq.is_channel_consistent(), lambda: len(seq.to_midi_track().messages),
+                 lambda: seq.get_sequence_duration_relation(), lambda: seq.split([a["n"] + 1, 7]),
+                 lambda: seq.equals(seq), lambda: seq == seq, lambda: seq.get_sequence_duration(),
+                 lambda: seq.get_sequence_channel()]
+        res = []
+        for c in calls:
+            # a getter that rejects the current content (IndexError on empty / orphan-only content, inconsistent
+            # channels) is recorded by exception type and must behave the same on the clean replica
+            try:
+                res.append(_summary(c()))
+            except Exception as e:
+                res.append(("raised", type(e).__name__))
         return res
     else:
         raise ValueError(name)
@@ -164,8 +170,8 @@ def small_seqspec():
 
 
 def _edits():
-    return st.lists(st.tuples(st.integers(0, 9), st.sampled_from(["note", "vel", "chan", "wait"]), st.integers(60, 63)).map(list),
-                    max_size=3)
+    return st.lists(st.tuples(st.one_of(st.integers(0, 2), st.integers(0, 9)), st.sampled_from(["note", "vel", "chan", "wait"]),
+                              st.integers(60, 63)).map(list), max_size=3)
 
 
 def op_strategy(names):
@@ -187,9 +193,9 @@ def op_strategy(names):
                                       "dne": st.booleans()}),
         "qan": st.just({}),
         "it_abs": st.fixed_dictionaries({"edits": _edits(), "read": st.sampled_from([False, False, True]),
-                                         "brk": st.sampled_from([None, None, 0, 2])}),
+                                         "brk": st.sampled_from([None, None, 0, 0, 1, 2])}),
         "it_rel": st.fixed_dictionaries({"edits": _edits(), "read": st.sampled_from([False, False, True]),
-                                         "brk": st.sampled_from([None, None, 0, 2])}),
+                                         "brk": st.sampled_from([None, None, 0, 0, 1, 2])}),
         "read_abs": st.just({}), "read_rel": st.just({}), "refresh": st.just({}),
         "inval_abs": st.just({}), "inval_rel": st.just({}), "copy": st.just({}),
         "getters": st.fixed_dictionaries({"n": st.integers(0, 50)}),
@@ -199,6 +205,6 @@ def op_strategy(names):
 
 ALL_OPS = ["add_abs", "add_rel", "concatenate", "merge", "cutoff", "normalise", "ow_abs", "ow_rel", "pad", "set_channel", "scale",
            "transpose", "quantise", "qnl", "qan", "it_abs", "it_rel", "read_abs", "read_rel", "refresh", "inval_abs", "inval_rel",
-           "copy", "getters"]
+           "copy", "getters", "refresh", "it_abs", "it_rel", "read_abs", "read_rel"]
 MUTATOR_OPS = ["add_abs", "add_rel", "concatenate", "merge", "cutoff", "normalise", "pad", "set_channel", "scale", "transpose",
                "quantise", "qnl", "it_abs", "it_rel", "transpose", "set_channel", "scale", "it_abs", "it_rel"]
